@@ -24,7 +24,11 @@ const (
 	mUserFn
 	mBuiltin
 	mBool
+	mTypedNil   // (*int)(nil): a non-nil interface value, so Has is true
+	mEmptySlice // []int{}: non-nil
 )
+
+var c10TypedNil *int
 
 type mval struct {
 	kind mkind
@@ -46,6 +50,10 @@ func (v mval) String() string {
 		return "builtin:" + v.s
 	case mBool:
 		return "false"
+	case mTypedNil:
+		return "(*int)(nil)"
+	case mEmptySlice:
+		return "[]int{}"
 	}
 	return "?"
 }
@@ -66,6 +74,10 @@ func (v mval) real() interface{} {
 		return plush.Helpers.All()[v.s]
 	case mBool:
 		return false
+	case mTypedNil:
+		return c10TypedNil
+	case mEmptySlice:
+		return []int{}
 	}
 	return nil
 }
@@ -85,6 +97,12 @@ func (v mval) matches(real interface{}) bool {
 	case mBool:
 		b, ok := real.(bool)
 		return ok && !b
+	case mTypedNil:
+		p, ok := real.(*int)
+		return ok && p == nil
+	case mEmptySlice:
+		s, ok := real.([]int)
+		return ok && len(s) == 0 && s != nil
 	case mUserFn:
 		rv := reflect.ValueOf(real)
 		return rv.IsValid() && rv.Kind() == reflect.Func && rv.Pointer() == c10UserFnPtr
@@ -122,6 +140,7 @@ type mctx struct {
 	parent    *mctx
 	data      map[string]mval
 	wrapped   map[string]mval // root only: values of the wrapped context.Context
+	wrapCtx   *mctx           // root only: the wrapped context.Context is itself a plush context
 	ambiguous map[string]bool // helper names whose observation is not compared (see DESIGN §5.5)
 	real      *plush.Context
 }
@@ -134,6 +153,13 @@ func (c *mctx) lookup(k string) (mval, bool) {
 		if s.parent == nil {
 			if v, ok := s.wrapped[k]; ok {
 				return v, true
+			}
+			if s.wrapCtx != nil {
+				// the wrapped context answers with its own Value: nil and "not
+				// bound" look the same from outside
+				if v := s.wrapCtx.value(k); v.kind != mNil {
+					return v, true
+				}
 			}
 		}
 	}
@@ -181,8 +207,8 @@ func (c *mctx) inject() {
 }
 
 var (
-	c10Keys     = []string{"a", "b", "len", "partial", "w"}
-	c10Observed = []string{"a", "b", "len", "partial", "w", "raw", "truncate", "contentFor", "zz"}
+	c10Keys     = []string{"a", "b", "len", "partial", "w", "A", "a.b", "contentFor:x", "_u", "Len"}
+	c10Observed = []string{"a", "b", "len", "partial", "w", "raw", "truncate", "contentFor", "zz", "A", "a.b", "contentFor:x", "_u", "Len"}
 )
 
 // swarm: each history draws its own small subsets of keys and values, so that
@@ -196,8 +222,8 @@ func drawSwarm(t *rapid.T) {
 	nk := rapid.IntRange(1, len(c10Keys)).Draw(t, "nkeys")
 	perm := rapid.Permutation(append([]string{}, c10Keys...)).Draw(t, "keyperm")
 	runKeys = perm[:nk]
-	nv := rapid.IntRange(2, 9).Draw(t, "nvals")
-	vp := rapid.Permutation([]int{0, 1, 2, 3, 4, 5, 6, 7, 8}).Draw(t, "valperm")
+	nv := rapid.IntRange(2, 12).Draw(t, "nvals")
+	vp := rapid.Permutation([]int{0, 1, 2, 3, 4, 5, 6, 7, 8, 9, 10, 11}).Draw(t, "valperm")
 	runVals = vp[:nv]
 }
 
@@ -213,6 +239,12 @@ func drawVal(t *rapid.T, label string) mval {
 		return mval{kind: mStr, s: ""}
 	case 8:
 		return mval{kind: mBool}
+	case 9:
+		return mval{kind: mStr, s: "1"} // prints like the int 1
+	case 10:
+		return mval{kind: mTypedNil}
+	case 11:
+		return mval{kind: mEmptySlice}
 	case 0:
 		return mval{kind: mNil}
 	case 1:
@@ -251,7 +283,7 @@ func c10Run(t *rapid.T) {
 	mp := drawMapOrder(t)
 	drawSwarm(t)
 	obsMode := uni(t, "obsmode", 3)
-	maxCtx := 10
+	maxCtx := []int{4, 10, 10, 40}[uni(t, "maxctx", 4)]
 	nops := rapid.IntRange(1, 60).Draw(t, "nops")
 	var live []*mctx
 	var hist []string
@@ -283,6 +315,21 @@ func c10Run(t *rapid.T) {
 		}
 	}
 
+	// observation is itself an operation (a read can trigger lazy work or fill
+	// caches): some histories look at everything after every step, some only
+	// now and then, some only at the very end
+	checkAllMaybe := func() {
+		switch obsMode {
+		case 0:
+			checkAll()
+		case 1:
+			if uni(t, "observe", 4) == 0 {
+				hist = append(hist, "(observe all)")
+				checkAll()
+			}
+		}
+	}
+
 	newModel := func(parent *mctx, data map[string]mval, wrapped map[string]mval) *mctx {
 		c := &mctx{id: nextID, parent: parent, data: data, wrapped: wrapped, ambiguous: map[string]bool{}}
 		nextID++
@@ -294,6 +341,17 @@ func c10Run(t *rapid.T) {
 		kind := uni(t, "op", 12)
 		if len(live) == 0 {
 			kind = kind % 3
+		}
+		if kind == 2 && len(live) > 0 && len(live) < maxCtx && uni(t, "doublewrap", 3) == 0 {
+			// NewContextWithContext given a *plush.Context: a second way to chain scopes
+			w := live[uni(t, "wrapctx", len(live))]
+			hist = append(hist, fmt.Sprintf("ctx#%d = NewContextWithContext(ctx#%d)", nextID, w.id))
+			c := newModel(nil, map[string]mval{}, nil)
+			c.wrapCtx = w
+			c.real = plush.NewContextWithContext(w.real)
+			live = append(live, c)
+			checkAllMaybe()
+			continue
 		}
 		switch {
 		case kind == 0 && len(live) < maxCtx:
@@ -380,18 +438,7 @@ func c10Run(t *rapid.T) {
 				}
 			}
 		}
-		// observation is itself an operation (a read can trigger lazy work or
-		// fill caches): some histories look at everything after every step,
-		// some only now and then, some only at the very end
-		switch obsMode {
-		case 0:
-			checkAll()
-		case 1:
-			if uni(t, "observe", 4) == 0 {
-				hist = append(hist, "(observe all)")
-				checkAll()
-			}
-		}
+		checkAllMaybe()
 	}
 	if obsMode != 0 {
 		hist = append(hist, "(observe all)")
